@@ -32,6 +32,10 @@ def build():
         '@@SYNTAX_ERROR_STRUCT@@', 'pub struct SyntaxError(%s);      // syntax_error.rs (fields made visible to specifications)' % ', '.join('pub ' + t for t in _fields)))
     se = U.file('crates/oq3_syntax/src/syntax_error.rs')
     se.impl('SyntaxError', [
+        # `message: impl Into<String>` is written as a named type parameter (same meaning; Verus has no argument-position impl Trait)
+        ('new', dict(ret='r', props=P, rewrites=[('D35', 'pub fn new(message: impl Into<String>', 'pub fn new<M: Into<String>>(message: M')], spec='ensures r.1 == range,')),
+        ('new_at_offset', dict(ret='r', props=P, rewrites=[('D35', 'pub fn new_at_offset(message: impl Into<String>', 'pub fn new_at_offset<M: Into<String>>(message: M')],
+            spec='ensures r.1.start == offset, r.1.end == offset,      //@C12:diagnostic-at-an-offset-is-the-empty-range-there')),
         ('with_range', dict(ret='r', props=P, mut_self=True, spec='ensures r.1 == range, r.0 == self.0,')),
         ('range', dict(ret='r', props=P, spec='ensures r == self.1,                 //@C12:range-of-the-diagnostic')),
     ])
